@@ -8,8 +8,14 @@ From MV Require Model.EnginesHs.   (* qualified: imports both codec models *)
 
 From MV Require Model.IoEnv Model.TimerRt.   (* qualified: own queue/handler names *)
 
+From MV Require Model.Inbound.   (* qualified: a scheduler model with many short names *)
+
 Definition run (e : N) (c : list (list N)) : list (list N) :=
   match e with
+  | 33 => Inbound.run_inb3 c
+  | 34 => Inbound.run_inb5 c
+  | 39 => Inbound.run_cli3 c
+  | 40 => Inbound.run_cli5 c
   | 1 => run_topic c
   | 30 => run_respq c
   | 36 => IoEnv.run_iostate c
